@@ -100,6 +100,10 @@ def snapshot(event):
     return (n,)
 
 
+class _Skipped(Exception):
+    pass
+
+
 class _AppError(Exception):
     """Raised by the application handler on purpose (abandonment by raise)."""
 
@@ -177,6 +181,8 @@ class App(object):
             rec.exc_is_wse = False
         except W.SimHang:
             raise
+        except _Skipped:
+            return None
         except Exception as e:
             from lomond import errors
             rec.outcome = 'raised'
@@ -213,6 +219,13 @@ class App(object):
             else:
                 ws.send_json(obj)
             rec.args_intact = (obj == copy)
+        elif kind == 'close_if_closing':
+            # `if shutting_down: ws.close()` in a handler: repeats close()
+            # only once a close has been started
+            if ws.is_closing and not ws.is_closed:
+                ws.close(op.get('code', 1000), op.get('reason', ''))
+            else:
+                raise _Skipped()
         elif kind == 'close':
             args = []
             if 'code' in op:
